@@ -206,7 +206,7 @@ def cross_variant_oracle(traces, pid="C14"):
             f = l.split()
             if f[1] in ("open", "close", "stat", "files", "pos", "batch", "merge", "backup", "dir", "hintcheck"):
                 continue
-            res = l.split(" => ", 1)[1].split(" ;; ")[0].strip()
+            res = l.split(" => ", 1)[1].split(" ;; ")[0].split(" # ")[0].strip()  # " # ..." is a remark of the harness, not a result
             groups[cur.split(".")[0]][cur].append((f[1], res))
     out = []
     for g, variants in groups.items():
